@@ -1,5 +1,6 @@
 import Tpp.Lemmas.Modes
 import Tpp.Lemmas.RendOnly
+import Tpp.Props.C04
 /-!
 C11 – mode switches leave the last requested mode in effect and respect capabilities.
 
@@ -203,5 +204,82 @@ theorem C11_disable_mirrors_enable (beh : Behaviour) (s : TermState) :
 
 -- non-vacuity: a history with repeated (elided) requests, on a behaviour with all-motion mouse and ST titles
 example : (requested [.op .hideCursor, .op .hideCursor, .op .enableMouse, .op (.setTitle [0x41]), .op .showCursor]).vis = some true := rfl
+
+/-! ### Draws are not mode requests
+
+`screen::draw` streams erases, cursor moves and elements to its terminal.  None of them is a mode request, so
+whatever was last requested is still in effect after any draw of any canvas – on any terminal, whatever the library
+believes about sizes and positions. -/
+
+/-- operations that are not requests for a mode -/
+def noMode : Op → Bool
+  | .hideCursor | .showCursor | .normalBuffer | .altBuffer | .enableMouse | .disableMouse | .setTitle _ => false
+  | _ => true
+
+theorem modesAfter_noMode (beh : Behaviour) (m : VT.Modes) (o : Op) (h : noMode o = true) :
+    modesAfter beh m (.op o) = m := by
+  cases o <;> simp_all [modesAfter, noMode]
+
+/-- any run of operations none of which is a mode request leaves the terminal's modes as they were -/
+theorem run_noMode_modes (beh : Behaviour) (ops : List Op) :
+    ∀ (st : TermState × VT), AgreeRend st.1 st.2 → (∀ op ∈ ops, op.WFR0 ∧ noMode op = true) →
+      (RSys.run beh st (ops.map REv.op)).2.modes = st.2.modes := by
+  induction ops with
+  | nil => intro st _ _; rfl
+  | cons op ops ih =>
+    intro st hA hall
+    have h1 := hall op (by simp)
+    have hw : (REv.op op).WF st.1 := wfr_of_wfr0 st.1 op h1.1
+    have hm := rstep_modes beh st.1 st.2 hA (.op op) hw
+    have hA' := (agreeRend_step beh st.1 st.2 hA (.op op) hw).1
+    have := ih (RSys.step beh st (.op op)) hA' (fun o ho => hall o (by simp [ho]))
+    simp only [List.map_cons, RSys.run, List.foldl_cons] at this ⊢
+    rw [this, hm]
+    exact modesAfter_noMode beh st.2.modes op h1.2
+
+/-- **a draw keeps the modes**: cursor visibility, active buffer, mouse reporting and title of the terminal are the
+    same after `screen.draw(c)` as before it, for every screen state, every (well-formed) canvas and every terminal
+    on which the library's idea of the rendition is right – no assumption about sizes or positions -/
+theorem C11_draw_keeps_modes (beh : Behaviour) (scr : ScreenState) (c : Canvas) (s : TermState) (vt : VT)
+    (hA : AgreeRend s vt) (hwf : c.cellsWF) :
+    (vt.feedAll (drawRun beh scr c s).2).modes = vt.modes := by
+  have hall : ∀ op ∈ (Screen.draw scr c).2, op.WFR0 ∧ noMode op = true := by
+    intro op hop
+    rw [Tpp.Props.C04.C04_ops_exact] at hop
+    rcases List.mem_append.mp hop with h | h
+    · split at h
+      · simp at h; subst h; exact ⟨trivial, rfl⟩
+      · simp at h
+    · rw [List.mem_flatMap] at h
+      obtain ⟨p, hp, hmem⟩ := h
+      have hin := (mem_fullRegion c p).mp (List.mem_filter.mp hp).1
+      simp at hmem
+      rcases hmem with rfl | rfl
+      · exact ⟨⟨hin.1.1, hin.2.1⟩, rfl⟩
+      · exact ⟨hwf p.1 p.2 hin.1.1 hin.1.2 hin.2.1 hin.2.2, rfl⟩
+  have := run_noMode_modes beh (Screen.draw scr c).2 (s, vt) hA hall
+  rw [RSys.run_ops] at this
+  exact this
+
+/-- the requested modes survive any sequence of draws interleaved with mode requests: after `hide_cursor` and then any
+    draw the cursor is still hidden (the clause the draw of a large canvas must not break) -/
+theorem C11_hide_then_draw (beh : Behaviour) (scr : ScreenState) (c : Canvas) (s : TermState) (vt : VT)
+    (hA : AgreeRend s vt) (hwf : c.cellsWF) :
+    let st1 := RSys.step beh (s, vt) (.op .hideCursor)
+    (st1.2.feedAll (drawRun beh scr c st1.1).2).cursorVisible = false := by
+  intro st1
+  have hw : (REv.op Op.hideCursor).WF s := trivial
+  have hA1 := (agreeRend_step beh s vt hA (.op .hideCursor) hw).1
+  have hm := rstep_modes beh s vt hA (.op .hideCursor) hw
+  have hd := C11_draw_keeps_modes beh scr c st1.1 st1.2 hA1 hwf
+  have : (st1.2.feedAll (drawRun beh scr c st1.1).2).modes.vis = false := by
+    rw [hd, hm]; rfl
+  exact this
+
+/-- non-vacuity: a fresh terminal object on a terminal in any unknown state, first paint of a blank 10x8 canvas -/
+example (beh : Behaviour) (vt0 : VT) (hu : vt0.Unknown) :
+    (vt0.feedAll (drawRun beh {} (Canvas.new ⟨10, 8⟩) {}).2).modes = vt0.modes :=
+  C11_draw_keeps_modes beh {} _ {} vt0 (agreeRend_init vt0 hu)
+    (fun x y _ _ _ _ => by rw [new_get_default]; decide)
 
 end Tpp.Props.C11
